@@ -353,12 +353,15 @@ func (o *Oracle) beforeDeleteRange(inc *Inc, min, max uint64) {
 		// the stored log after a user restore has burned indexes (nothing exists there to keep)
 		head := d.last
 		if inc.r != nil {
-			if li := inc.r.LastIndex(); li > head {
-				head = li
+			if li, _ := inc.r.VerifLastLog(); li > head {
+				head = li // raft's last *log* index (not the snapshot's): beyond the stored log only after a user restore
 				w.stats.probe("compaction_with_head_beyond_stored_log")
 			}
 		}
-		if head >= w.cfg.TrailingLogs && hi > head-w.cfg.TrailingLogs && o.installing[inc.node.idx] == 0 && o.userRestoring[inc.node.idx] == 0 {
+		// a snapshot install resets the log wholesale only on a store that cannot hold gaps; on a
+		// gap-tolerant store it compacts like after a local snapshot
+		installingReset := o.installing[inc.node.idx] > 0 && w.cfg.StoreFlavour != FlavourPlain
+		if head >= w.cfg.TrailingLogs && hi > head-w.cfg.TrailingLogs && !installingReset && o.userRestoring[inc.node.idx] == 0 {
 			w.violate("C11", "C11/trailing-logs-not-kept", "%s compaction [%d,%d] with log [%d,%d] and TrailingLogs=%d removes one of the last %d entries (%d in log)",
 				inc.tag, lo, hi, d.first, d.last, w.cfg.TrailingLogs, w.cfg.TrailingLogs, count)
 		}
